@@ -588,7 +588,14 @@ class Evaluator(object):
                 raise Unconstrained()
             return Fraction(a[0]) / Fraction(a[1])
         if op == "POW":
-            raise NoSemantics("POW")
+            # n-th power for a constant integer exponent; 0^e for e <= 0 is left unconstrained and
+            # non-integer exponents (roots) have no reference semantics here
+            e = Fraction(a[1])
+            if e.denominator != 1:
+                raise NoSemantics("POW with a non-integer exponent")
+            if a[0] == 0 and e <= 0:
+                raise Unconstrained()
+            return Fraction(a[0]) ** int(e)
         if op == "XOR":
             r = a[0]
             for x in a[1:]:
